@@ -2839,6 +2839,34 @@ func c09R4GcIndex(c *Ctx, R4 string, h *c09Helpers) {
 
 // ---------------------------------------------------------------- R5
 
+// c09HandsOverLock: f returns a function value that releases a lock (the bound
+// method value mu.Unlock / mu.RUnlock, or a closure that calls it): the lock f
+// acquires is released by whoever runs that value.
+func c09HandsOverLock(f *ssa.Function) bool {
+	res := f.Signature.Results()
+	for i := 0; i < res.Len(); i++ {
+		if _, isFunc := res.At(i).Type().Underlying().(*types.Signature); !isFunc {
+			continue
+		}
+		for _, a := range RetAtoms(f, i) {
+			mc, ok := c09Resolved(a.Val).(*ssa.MakeClosure)
+			if !ok {
+				continue
+			}
+			g := mc.Fn.(*ssa.Function)
+			if n := g.Name(); strings.HasSuffix(g.String(), ".Unlock$bound") || strings.HasSuffix(g.String(), ".RUnlock$bound") || n == "Unlock$bound" || n == "RUnlock$bound" {
+				return true
+			}
+			for _, call := range Calls(g, func(string) bool { return true }) {
+				if op, _ := lockOp(call); op == "U" || op == "RU" {
+					return true
+				}
+			}
+		}
+	}
+	return false
+}
+
 // c09StoreState: the fields of oci.Store that s.sync protects.
 var c09StoreState = map[string]bool{"root": true, "indexPath": true, "index": true, "storage": true, "tagResolver": true, "graph": true}
 
@@ -2948,6 +2976,50 @@ func c09R5(c *Ctx) {
 		held := heldAt(f, heldSet{})
 		n, bad := 0, ""
 		var badPos token.Pos
+		// the lock taken by a helper that hands back its release (`unlock := s.lockExclusive(); defer unlock()`):
+		// held from the call on when the helper returns with the receiver's lock in write mode and the returned
+		// release is deferred here
+		var takers []*ssa.Call
+		AllInstrs(f, func(in ssa.Instruction) {
+			call, ok := in.(*ssa.Call)
+			g := (*ssa.Function)(nil)
+			if ok {
+				g = StaticCallee(call)
+			}
+			if g == nil || !inModule(g) || len(g.Blocks) == 0 || len(g.Params) == 0 || len(call.Call.Args) == 0 || call.Call.Args[0] != ssa.Value(recv) || !c09HandsOverLock(g) {
+				return
+			}
+			gh := heldAt(g, heldSet{})
+			all := true
+			for _, r := range Returns(g) {
+				all = all && gh[r]["P:"+g.Params[0].Name()+"."+lockField] == modeW
+			}
+			deferred := false
+			for _, ref := range *call.Referrers() {
+				if d, isD := ref.(*ssa.Defer); isD && d.Call.Value == ssa.Value(call) {
+					deferred = true
+				}
+			}
+			if all && deferred {
+				takers = append(takers, call)
+			}
+		})
+		viaHelper := func(in ssa.Instruction) bool {
+			if in == nil {
+				return false
+			}
+			for _, t := range takers {
+				if in != ssa.Instruction(t) && Dominates(t, in) {
+					return true
+				}
+			}
+			for _, t := range takers {
+				if in == ssa.Instruction(t) {
+					return true // the taker itself
+				}
+			}
+			return false
+		}
 		AllInstrs(f, func(in ssa.Instruction) {
 			call, ok := in.(*ssa.Call)
 			if !ok {
@@ -2966,7 +3038,7 @@ func c09R5(c *Ctx) {
 				return
 			}
 			n++
-			if held[in][lockPath] < modeW && bad == "" {
+			if held[in][lockPath] < modeW && bad == "" && !viaHelper(in) {
 				bad, badPos = CalleeName(call)+" at "+c.P.Pos(call.Pos()), call.Pos()
 			}
 		})
@@ -3002,8 +3074,8 @@ func c09R5(c *Ctx) {
 					}
 				}
 			}
-			if !acquires {
-				continue
+			if !acquires || c09HandsOverLock(f) {
+				continue // nothing acquired, or the release is handed to the caller (judged where it is deferred)
 			}
 			held := heldAt(f, heldSet{})
 			type rel struct {
